@@ -27,4 +27,4 @@ PY
   git -C /repo worktree remove --force $W; rm -rf /tmp/verif-alt/$(python3 -c "import hashlib,os;print(hashlib.md5(os.path.realpath('$W').encode()).hexdigest()[:10])")
 }
 export -f run_one; export H
-ls -d harmless/${1:-C}* | xargs -P 4 -I{} bash -c 'run_one {}'
+for a in "${@:-C}"; do ls -d harmless/$a*; done | xargs -P ${SEEDFINAL_P:-4} -I{} bash -c 'run_one {}'
